@@ -193,19 +193,25 @@ func dirents(n, nameLen int) p9.Dirents {
 }
 
 func serverCases(thorough bool) []srvCase {
-	msizes := []uint32{4096, 8192, 65536, mib4}
+	// Requested msizes above 4 MiB are announced as 4 MiB: the reply limit is
+	// the ANNOUNCED value, so counts and sizes are taken around that.
+	msizes := []uint32{4096, 8192, 65536, mib4, mib4 + 1, 8 << 20}
 	if thorough {
-		msizes = []uint32{24, 64, 512, 4096, 4097, 8192, 12345, 65536, 1 << 20, mib4 - 1, mib4}
+		msizes = []uint32{24, 64, 512, 4096, 4097, 8192, 12345, 65536, 1 << 20, mib4 - 1, mib4, mib4 + 1, 8 << 20, 1<<32 - 1}
 	}
 	var out []srvCase
 	for _, m := range msizes {
-		for _, c := range counts(m, thorough) {
+		eff := m
+		if eff > mib4 {
+			eff = mib4
+		}
+		for _, c := range counts(eff, thorough) {
 			offsets := []uint64{0}
 			if thorough {
 				offsets = []uint64{0, 1}
 			}
 			for _, off := range offsets {
-				for _, sz := range sizes(c.V, m) {
+				for _, sz := range sizes(c.V, eff) {
 					out = append(out, srvCase{Kind: "tread-file", Msize: m, CountName: c.Name, Count: uint32(c.V), Offset: off, SizeName: sz.Name, Size: int(sz.V)})
 				}
 			}
@@ -215,7 +221,7 @@ func serverCases(thorough bool) []srvCase {
 			// p9 refuses to walk to attributes above 4 MiB (EINVAL), so
 			// attribute sizes are clamped to 4 MiB.
 			var xs []named
-			for _, sz := range sizes(c.V, m) {
+			for _, sz := range sizes(c.V, eff) {
 				if sz.Name == "count-1" {
 					continue
 				}
@@ -260,7 +266,11 @@ func runServerCase(rep *fw.Report, cnt *counters, c srvCase) {
 		case "one":
 			n = 1
 		case "2*msize-bytes":
-			n = (2*int(c.Msize))/(24+c.NameLen) + 1
+			eff := int(c.Msize)
+			if eff > mib4 {
+				eff = mib4
+			}
+			n = (2*eff)/(24+c.NameLen) + 1
 		}
 		all := dirents(n, c.NameLen)
 		per := uint64(24 + c.NameLen)
